@@ -27,16 +27,17 @@ int vprop_fork = 1;
 int vprop_cpu_limit_s = 60;
 const char *vprop_class_names[V_NCLASS] = {
   "mode_jit", "mode_backup", "mode_emulate", "mode_disable_orc", "lazy_init", "init_function", "compat_bytecode", "compat_old", "no_backup",
-  "inline", "multi_function", "two_d", "accumulators", "typed_params", "float_ops", "memcpy_memset", "difference_within_float_freedom", "refused_by_compat_level", "first_use_without_orc_init", "variable_classes_filled_to_limit", "refused_c_target_register_limit", NULL
+  "inline", "multi_function", "two_d", "accumulators", "typed_params", "float_ops", "memcpy_memset", "difference_within_float_freedom", "refused_by_compat_level", "first_use_without_orc_init", "variable_classes_filled_to_limit", "refused_c_target_register_limit", "backup_directive", NULL
 };
 
 void vprop_init (int argc, char **argv) { (void) argc; (void) argv; /* orc_init happens in the child: ORC_CODE is read there */ }
 /* enumerated: mode (3) x destination misalignment (16) */
 /* enumerated: orc_memcpy/orc_memset: mode (3) x destination misalignment (16); then "first use": 3 modes x {lazy, --init-function} */
-uint64_t vprop_enum_count (const char *tier) { (void) tier; return 3 * 16 + 6; }
+uint64_t vprop_enum_count (const char *tier) { (void) tier; return 3 * 16 + 6 + 4 * 2; }    /* + the .backup directive: 4 files x {orc build, DISABLE_ORC build} */
 size_t vprop_enum_stream (uint64_t i, uint32_t *out, size_t max)
 {
   (void) max;
+  if (i >= 54) { out[0] = 0xC7C7C7C9u; out[1] = (uint32_t) ((i - 54) / 2); out[2] = (uint32_t) ((i - 54) % 2); return 3; }
   if (i >= 48) { out[0] = 0xC7C7C7C8u; out[1] = (uint32_t) ((i - 48) / 2); out[2] = (uint32_t) ((i - 48) % 2); return 3; }
   out[0] = 0xC7C7C7C7u; out[1] = (uint32_t) (i / 16); out[2] = (uint32_t) (i % 16); return 3;
 }
@@ -115,6 +116,85 @@ static void memfuncs (VResult *r, int mode, int dalign)
 /* ---- first use: the generated function is the FIRST thing the process asks of Orc (no orc_init call by the application) ---- */
 #include <sys/resource.h>
 #include <signal.h>
+/* ---- the .backup directive: the application supplies the fallback itself, orcc writes the calls to it.  Four small files; the
+   application side (main.c) defines the backup function with the prototype orcc's header declares for it and calls the generated
+   function once with ORC_CODE=backup (the backup has to be what runs) and once without.  Oracle: both orcc outputs compile; the
+   results are right; the backup ran in the backup run ---- */
+static void backup_directive (VResult *r, int k, int disable_orc)
+{
+  static const struct { const char *what, *orc, *app; } files[4] = {
+    { "two arrays", ".function bd_add\n.backup bd_add_c\n.dest 2 d1\n.source 2 s1\n.source 2 s2\naddw d1, s1, s2\n",
+      "int bd_calls;\nvoid bd_add_c (orc_uint16 * d1, const orc_uint16 * s1, const orc_uint16 * s2, int n) { int i; bd_calls++; for (i = 0; i < n; i++) d1[i] = (orc_uint16) (s1[i] + s2[i]); }\n"
+      "int bd_main (int expect_backup) { orc_uint16 d[40], a[40], b[40]; int i; for (i = 0; i < 40; i++) { a[i] = (orc_uint16) (i * 3); b[i] = (orc_uint16) (100 - i); d[i] = 0; }\n"
+      "  bd_add (d, a, b, 37); for (i = 0; i < 37; i++) if (d[i] != (orc_uint16) (a[i] + b[i])) return 2; if (d[37]) return 3; if (expect_backup && bd_calls != 1) return 4; return 0; }\n" },
+    { "an accumulator", ".function bd_sum\n.backup bd_sum_c\n.accumulator 4 a1 orc_int32\n.source 4 s1 orc_int32\naccl a1, s1\n",
+      "int bd_calls;\nvoid bd_sum_c (orc_int32 * a1, const orc_int32 * s1, int n) { int i; orc_uint32 t = 0; bd_calls++; for (i = 0; i < n; i++) t += (orc_uint32) s1[i]; *a1 = (orc_int32) t; }\n"
+      "int bd_main (int expect_backup) { orc_int32 a[40], sum = 0, want = 0; int i; for (i = 0; i < 40; i++) a[i] = i * 1000 + 7;\n"
+      "  for (i = 0; i < 37; i++) want += a[i]; bd_sum (&sum, a, 37); if (sum != want) return 2; if (expect_backup && bd_calls != 1) return 4; return 0; }\n" },
+    { "a double parameter", ".function bd_scale\n.backup bd_scale_c\n.dest 8 d1 double\n.source 8 s1 double\n.doubleparam 8 p1\nmuld d1, s1, p1\n",
+      "int bd_calls;\nvoid bd_scale_c (double * d1, const double * s1, double p1, int n) { int i; bd_calls++; for (i = 0; i < n; i++) d1[i] = s1[i] * p1; }\n"
+      "int bd_main (int expect_backup) { double d[40], a[40]; int i; for (i = 0; i < 40; i++) { a[i] = i + 0.5; d[i] = 0; }\n"
+      "  bd_scale (d, a, 3.0, 37); for (i = 0; i < 37; i++) if (d[i] != a[i] * 3.0) return 2; if (d[37] != 0) return 3; if (expect_backup && bd_calls != 1) return 4; return 0; }\n" },
+    { "a fixed n", ".function bd_add8\n.backup bd_add8_c\n.n 8\n.dest 2 d1\n.source 2 s1\naddw d1, s1, s1\n",
+      "int bd_calls;\nvoid bd_add8_c (orc_uint16 * d1, const orc_uint16 * s1) { int i; bd_calls++; for (i = 0; i < 8; i++) d1[i] = (orc_uint16) (s1[i] + s1[i]); }\n"
+      "int bd_main (int expect_backup) { orc_uint16 d[16], a[16]; int i; for (i = 0; i < 16; i++) { a[i] = (orc_uint16) (i * 5); d[i] = 0; }\n"
+      "  bd_add8 (d, a); for (i = 0; i < 8; i++) if (d[i] != (orc_uint16) (2 * a[i])) return 2; if (d[8]) return 3; if (expect_backup && bd_calls != 1) return 4; return 0; }\n" },
+  };
+  const char *scratch = v_arg ("scratch", "/verif/_work/scratch"), *orcc = v_arg ("orcc", NULL), *inc = v_arg ("cg_inc", "");
+  char dir[400], cmd[2400], err[1200], path[500], sig[V_SIG_MAX];
+  int run;
+  v_desc (r, "# C07 .backup directive with %s, %s build\n%s", files[k].what, disable_orc ? "DISABLE_ORC" : "orc", files[k].orc);
+  if (!orcc) { r->verdict = V_DISCARD; return; }
+  snprintf (dir, sizeof dir, "%s/c07b-%d", scratch, (int) getpid ());
+  snprintf (cmd, sizeof cmd, "rm -rf %s && mkdir -p %s", dir, dir);
+  if (system (cmd) != 0) { r->verdict = V_DISCARD; return; }
+  snprintf (path, sizeof path, "%s/bd.orc", dir);
+  { FILE *f = fopen (path, "w"); if (!f) { r->verdict = V_DISCARD; return; } fputs (files[k].orc, f); fclose (f); }
+  snprintf (cmd, sizeof cmd, "%s --implementation -o %s/impl.c %s/bd.orc > %s/e 2>&1 && %s --header -o %s/bd.h %s/bd.orc >> %s/e 2>&1", orcc, dir, dir, dir, orcc, dir, dir, dir);
+  snprintf (path, sizeof path, "%s/e", dir);
+  if (run_cmd (cmd, err, sizeof err, path) != 0) { v_fail (r, "orcc:failed", "orcc failed on a file with a .backup directive: %.300s", err); goto done; }
+  snprintf (path, sizeof path, "%s/main.c", dir);
+  { FILE *f = fopen (path, "w"); if (!f) { r->verdict = V_DISCARD; goto done; } fprintf (f, "#include <orc/orc.h>\n#include \"bd.h\"\n%s", files[k].app); fclose (f); }
+  snprintf (cmd, sizeof cmd, "TMPDIR=%s gcc -std=gnu11 -O2 -fPIC -shared -w %s -DORC_ENABLE_UNSTABLE_API %s -I%s -o %s/bd.so %s/impl.c %s/main.c > %s/e 2>&1", dir, disable_orc ? "-DDISABLE_ORC" : "", inc, dir, dir, dir, dir, dir);
+  snprintf (path, sizeof path, "%s/e", dir);
+  if (run_cmd (cmd, err, sizeof err, path) != 0) {
+    const char *e = strstr (err, "error");
+    snprintf (sig, sizeof sig, "cc:rejects-generated-code:backup-directive");
+    v_fail (r, sig, "gcc rejects what orcc generated for a function with a .backup directive and %s (%s build): %.300s", files[k].what, disable_orc ? "DISABLE_ORC" : "orc", e ? e : err);
+    goto done;
+  }
+  for (run = 0; run < 2 && r->verdict != V_FAIL; run++) {
+    pid_t pid;
+    int st = 0;
+    if (run == 0) setenv ("ORC_CODE", "backup", 1); else unsetenv ("ORC_CODE");
+    fflush (NULL);
+    pid = fork ();
+    if (pid == 0) {
+      void *h;
+      int (*fn) (int);
+      alarm (60);
+      snprintf (path, sizeof path, "%s/bd.so", dir);
+      h = dlopen (path, RTLD_NOW | RTLD_LOCAL);
+      if (!h) _exit (40);
+      fn = (int (*) (int)) dlsym (h, "bd_main");
+      if (!fn) _exit (41);
+      _exit (fn (run == 0 || disable_orc));
+    }
+    waitpid (pid, &st, 0);
+    if (WIFSIGNALED (st)) v_fail (r, "backup-directive:crash", "calling the generated function (%s) died with signal %d", run == 0 ? "ORC_CODE=backup" : "JIT", WTERMSIG (st));
+    else if (WEXITSTATUS (st) != 0) v_fail (r, "backup-directive:wrong", "generated function with .backup and %s, %s: %s (code %d)", files[k].what, run == 0 ? "ORC_CODE=backup" : "JIT",
+        WEXITSTATUS (st) == 4 ? "the application's backup function did not run exactly once" : "wrong result", WEXITSTATUS (st));
+    r->sub_evals++;
+  }
+  unsetenv ("ORC_CODE");
+done:
+  r->classes |= 1u << 21;
+  r->nontrivial = 1;
+  r->sub_nontrivial = r->sub_evals;
+  r->hash = 0xC9000000u + (uint64_t) k * 2 + (uint64_t) disable_orc;
+  if (!v_arg ("keep", NULL)) { snprintf (cmd, sizeof cmd, "rm -rf %s", dir); if (system (cmd)) {} }
+}
+
 static void first_use (VResult *r, int mode, int eager)
 {
   static const char *modes[3] = { NULL, "backup", "emulate" };
@@ -271,6 +351,7 @@ void vprop_case (VChoices *c, VResult *r)
   uint64_t h = 0;
   uint32_t craw;
 
+  if (c->n >= 3 && c->v[0] == 0xC7C7C7C9u) { backup_directive (r, (int) (c->v[1] % 4), (int) (c->v[2] % 2)); return; }
   if (c->n >= 3 && c->v[0] == 0xC7C7C7C8u) { first_use (r, (int) (c->v[1] % 3), (int) (c->v[2] % 2)); return; }
   if (c->n >= 3 && c->v[0] == 0xC7C7C7C7u) { memfuncs (r, (int) (c->v[1] % 3), (int) (c->v[2] % 16)); return; }
   if (!orcc) { r->verdict = V_DISCARD; return; }
